@@ -11,3 +11,8 @@ package consensus
 //@ func Consensus.VerifyMomentumProducer(self, momentum) -> (ok, err)
 //@   ensures err == nil ==> (ok <==> self.elected[int(momentum)])
 //@   modifies nothing
+
+// Property C05: the schedule of a tick is a function of the ledger as of that tick's proof momentum - the last momentum
+// strictly before the tick's proof time, whatever the node's frontier is when the schedule is computed.
+//@ func getMomentumBeforeTime(chain, t) -> (m, err)
+//@   ensures[strictly-before] err == nil ==> m != nil && m.Timestamp != nil && timenano(m.Timestamp) < timenano(t)
